@@ -779,17 +779,50 @@ func c19SuccessOnlyAfterSuccess(c *Ctx, rule string) {
 		return
 	}
 	var scope []*ssa.Function
+	inScope := map[*ssa.Function]bool{}
 	var add func(f *ssa.Function)
 	add = func(f *ssa.Function) {
+		if inScope[f] {
+			return
+		}
+		inScope[f] = true
 		scope = append(scope, f)
 		for _, a := range f.AnonFuncs {
 			add(a)
 		}
 	}
 	add(run)
+	for _, h := range pkgClosure(run) {
+		if prog.PkgOf(h) == "tools/expect" && h.Blocks != nil {
+			add(h)
+		}
+	}
+	// what a sent value is: the variables (cells), fields or other definitions it resolves to
+	rootsOf := func(v ssa.Value) []interface{} {
+		var out []interface{}
+		for _, d := range resolveThroughLocals(v, scope) {
+			if cell := cellOf(d); cell != nil {
+				out = append(out, rootCell(cell))
+				continue
+			}
+			if ld, isLd := d.(*ssa.UnOp); isLd {
+				if fa, isFA := ld.X.(*ssa.FieldAddr); isFA {
+					if named, fld, _, ok := ssau.FieldOf(fa); ok && named != nil {
+						out = append(out, named.Obj().Name()+"."+fld)
+						continue
+					}
+				}
+			}
+			if _, isC := d.(*ssa.Const); isC {
+				continue
+			}
+			out = append(out, d)
+		}
+		return out
+	}
 	type sendSite struct {
 		in     *ssa.Send
-		root   ssa.Value
+		roots  []interface{}
 		noErr  bool
 		inFunc *ssa.Function
 	}
@@ -800,10 +833,7 @@ func c19SuccessOnlyAfterSuccess(c *Ctx, rule string) {
 			if !ok || sd.X.Type().String() != "error" {
 				return
 			}
-			st := sendSite{in: sd, inFunc: f}
-			if cell := cellOf(sd.X); cell != nil {
-				st.root = rootCell(cell)
-			}
+			st := sendSite{in: sd, inFunc: f, roots: rootsOf(sd.X)}
 			for _, ft := range flow.FactsAt(sd.Block()) {
 				bo, isB := ft.Cond.(*ssa.BinOp)
 				if !isB || bo.X.Type().String() != "error" {
@@ -819,10 +849,12 @@ func c19SuccessOnlyAfterSuccess(c *Ctx, rule string) {
 			sends = append(sends, st)
 		})
 	}
-	success := map[ssa.Value]bool{}
+	success := map[interface{}]bool{}
 	for _, st := range sends {
-		if st.noErr && st.root != nil {
-			success[st.root] = true
+		if st.noErr {
+			for _, r := range st.roots {
+				success[r] = true
+			}
 		}
 	}
 	if len(success) == 0 {
@@ -831,7 +863,13 @@ func c19SuccessOnlyAfterSuccess(c *Ctx, rule string) {
 	}
 	perFn := map[*ssa.Function]int{}
 	for _, st := range sends {
-		if st.root == nil || !success[st.root] {
+		is := false
+		for _, r := range st.roots {
+			if success[r] {
+				is = true
+			}
+		}
+		if !is {
 			continue
 		}
 		perFn[st.inFunc]++
@@ -843,7 +881,8 @@ func c19SuccessOnlyAfterSuccess(c *Ctx, rule string) {
 // The strings the matcher compares for equality are therefore the strings it
 // was given: an operand that was computed (cut, concatenated, or returned by a
 // function outside the matcher) is a constant standing for another string.
-func c01ComparedAsIs(c *Ctx, rule string, fns []*ssa.Function) {
+func c01ComparedAsIs(c *Ctx, rule string, m *matchModel) {
+	fns := m.fns
 	isString := func(t types.Type) bool {
 		b, ok := t.Underlying().(*types.Basic)
 		return ok && b.Kind() == types.String
@@ -868,6 +907,16 @@ func c01ComparedAsIs(c *Ctx, rule string, fns []*ssa.Function) {
 			}
 			if _, isC := bo.Y.(*ssa.Const); isC {
 				return
+			}
+			// only a comparison of a string of the pattern with a string of the message
+			{
+				p, fct := bo.X, bo.Y
+				if m.has(fct, "P") && m.has(p, "F") && !m.has(p, "P") {
+					p, fct = fct, p
+				}
+				if !(m.has(p, "P") && m.has(fct, "F") && !m.has(fct, "P")) {
+					return
+				}
 			}
 			n++
 			perFn[f]++
@@ -895,7 +944,7 @@ func c01ComparedAsIs(c *Ctx, rule string, fns []*ssa.Function) {
 		})
 	}
 	if n == 0 {
-		c.R.Break(rule + ": no comparison of two strings found in the matcher")
+		c.R.Break(rule + ": no comparison of a pattern string with a message string found in the matcher")
 	}
 }
 
